@@ -58,6 +58,23 @@ class ScratchDiscipline:
         self.problems: List[Tuple[str, int, str]] = []     # (function, line, text)
         self.functions: List[str] = []
 
+    def components(self) -> Optional[Set[object]]:
+        """the slots that make up the buffer: indices of a fixed-length list, or the constant keys of a dict literal"""
+        if self.length is not None:
+            return set(range(self.length))
+        v = self._init_value()
+        if isinstance(v, ast.Dict) and v.keys and all(isinstance(k, ast.Constant) for k in v.keys):
+            return {k.value for k in v.keys}
+        if isinstance(v, ast.Call) and core.src(v.func) in ("A5Cell", "dict") and v.keywords and not v.args:
+            return {k.arg for k in v.keywords if k.arg}
+        return None
+
+    def _init_value(self):
+        if self.attr is not None:
+            return None
+        bd = self.w.model.module_vars.get(self.obj)
+        return bd.node if bd else None
+
     def _length(self) -> Optional[int]:
         v = None
         if self.attr is not None:
@@ -99,43 +116,56 @@ class ScratchDiscipline:
     def check(self) -> bool:
         """True if, in every function that names the buffer, every read is preceded (in the same activation,
         on every path) by a call that stores all of its slots."""
-        if self.length is None:
-            self.problems.append(("<module>", 0, "not a fixed-length list initialised at import"))
+        self.all = self.components()
+        if self.all is None:
+            self.problems.append(("<module>", 0, "not a fixed-length list / fixed-key dict initialised at import"))
             return False
         ok = True
         for fq, fi in self.w.model.funcs.items():
             if fi.is_module_body or not self._mentions(fi.node, fi):
                 continue
             self.functions.append(fq)
-            defined = self._scan(fi.node.body, fi, False)
+            self._scan(fi.node.body, fi, frozenset())
             ok = ok and not [p for p in self.problems if p[0] == fq]
         return ok and not self.problems
 
-    def _scan(self, stmts, fi, defined: bool) -> bool:
+    def _full(self, defined) -> bool:
+        return self.all <= set(defined)
+
+    def _scan(self, stmts, fi, defined):
         for st in stmts:
             if isinstance(st, ast.If):
                 defined = self._expr(st.test, fi, defined)
                 a = self._scan(st.body, fi, defined)
                 b = self._scan(st.orelse, fi, defined)
-                defined = a and b
+                defined = frozenset(set(a) & set(b))
             elif isinstance(st, (ast.For, ast.While)):
                 if isinstance(st, ast.For):
                     defined = self._expr(st.iter, fi, defined)
                 else:
                     defined = self._expr(st.test, fi, defined)
-                inner = self._scan(st.body, fi, defined)
+                self._scan(st.body, fi, defined)
                 # the loop may run zero times: keep the state before it
-            elif isinstance(st, (ast.Return, ast.Expr, ast.Assign, ast.AugAssign, ast.AnnAssign, ast.Raise)):
+            elif isinstance(st, ast.Assign):
+                defined = self._expr(st.value, fi, defined)
+                for t in st.targets:
+                    if isinstance(t, ast.Subscript) and self._is_obj(t.value, fi) and isinstance(t.slice, ast.Constant):
+                        defined = frozenset(set(defined) | {t.slice.value})
+                    else:
+                        for child in ast.walk(t):
+                            if self._is_obj(child, fi) and not self._full(defined):
+                                self.problems.append((fi.qual, st.lineno, core.src(st)[:80]))
+            elif isinstance(st, (ast.Return, ast.Expr, ast.AugAssign, ast.AnnAssign, ast.Raise)):
                 for child in ast.iter_child_nodes(st):
                     if isinstance(child, ast.expr):
                         defined = self._expr(child, fi, defined)
             else:
                 for child in ast.walk(st):
-                    if self._is_obj(child, fi) and not defined:
+                    if self._is_obj(child, fi) and not self._full(defined):
                         self.problems.append((fi.qual, getattr(st, "lineno", 0), core.src(st)[:80]))
         return defined
 
-    def _expr(self, e: ast.expr, fi, defined: bool) -> bool:
+    def _expr(self, e: ast.expr, fi, defined):
         """evaluation order: arguments left to right, then the call"""
         if isinstance(e, ast.Call):
             cs = None
@@ -153,7 +183,7 @@ class ScratchDiscipline:
             if positions:
                 full = False
                 reads = False
-                if cs is not None and cs.callees:
+                if cs is not None and cs.callees and self.length is not None:
                     full = True
                     for callee in cs.callees:
                         cfi = self.w.model.funcs[callee]
@@ -179,13 +209,17 @@ class ScratchDiscipline:
                             reads = reads or rd or not wrote
                 else:
                     reads = True
-                if reads and not defined:
+                if reads and not self._full(defined):
                     self.problems.append((fi.qual, e.lineno, core.src(e)[:80]))
                 if full:
-                    defined = True
+                    defined = frozenset(self.all)
+            return defined
+        if isinstance(e, ast.Subscript) and self._is_obj(e.value, fi) and isinstance(e.slice, ast.Constant) and isinstance(e.ctx, ast.Load):
+            if e.slice.value not in set(defined):
+                self.problems.append((fi.qual, getattr(e, "lineno", 0), core.src(e)[:80]))
             return defined
         if self._is_obj(e, fi):
-            if not defined:
+            if not self._full(defined):
                 self.problems.append((fi.qual, getattr(e, "lineno", 0), core.src(e)[:80]))
             return defined
         for child in ast.iter_child_nodes(e):
@@ -414,6 +448,17 @@ def run(ctx):
                     f"`{sw.origin_text}` in {sw.origin_func} writes into an object held by the cache; single-threaded this is the initialisation of a "
                     f"new entry only if it completes before the entry is used, which is not decided")
             continue
+        # (1b) a keyed store into a field that is also cleared / evicted: the fill idiom is not verified, but an incomplete key is certain
+        if sw.field and "subscript-store:key" in kinds and sw.origin_func in w.model.funcs and w.model.funcs[sw.origin_func].cls:
+            stores = [x for x in sws if any(k.startswith("subscript-store:key") for k in x.kinds)]
+            ci = recognise_cache(w.model, stores[0].origin_func, sw.field)
+            if ci.variant != "?":
+                dep, _ = value_dependencies(w.model, ci)
+                extra = dep - ci.key_vars
+                if extra:
+                    ctx.bad("C17.2", f"table {obj}: the stored value depends on {sorted(extra)}, which is not part of the key `{core.src(ci.key_expr)}`", where,
+                            f"filled by {stores[0].origin_func}; a later call with a different {sorted(extra)[0]} and the same key gets the value of an earlier one")
+                    continue
         # (2) one-slot memos: attribute of a singleton, or module-level variables
         memo = None
         for x in sws:
@@ -444,7 +489,7 @@ def run(ctx):
             sd = ScratchDiscipline(w, obj)
         elif sw.field is not None and sw.depth == 1 and w.eff.object_class(sw.obj):
             sd = ScratchDiscipline(w, obj, w.eff.object_class(sw.obj), sw.field)
-        if sd is not None and sd.length is not None and kinds <= {"subscript-store:const"}:
+        if sd is not None and sd.components() is not None and kinds <= {"subscript-store:const"}:
             if sd.check() and sd.functions:
                 ctx.ok("C17.1", f"scratch buffer {obj} is completely written before it is read in every activation", where,
                        f"functions naming it: {[f.split('.', 2)[-1] for f in sd.functions]}; no value survives from one call into the next")
